@@ -166,7 +166,15 @@ fn size_ladder_pass(prop: &str, protos: &[Proto], quick: bool) -> Acc {
             let len = t.len();
             let (f, a) = if prop == "C05" { (Some(t.clone()), None) } else { (Some("f".to_string()), Some(t.clone())) };
             let case = IssueCase::new(*p, *l, &key, seed.as_deref(), "{\"data\":\"x\"}", &f, &a);
-            let Some(token) = issue_with_control(&case, &mut acc) else { continue };
+            // no separate control here: accepting the token under the very text it was built with IS the first
+            // presentation below (texts of these sizes and shapes occur in no other check's alphabet)
+            acc.impl_calls += 1;
+            let Out::Ok(token) = case.issue() else {
+                acc.violate(format!("{}|{}|{}|large-text|not-issued", prop, p.name(), l.name()), format!("no token could be built with a {} of {} bytes ({}...)", if prop == "C05" { "footer" } else { "assertion" }, len, t.chars().take(24).collect::<String>()), json!({"issue": case, "issued_token": "", "presentation": Presentation::of(&case, ""), "tag": "large-text:not-issued"}));
+                continue;
+            };
+            CONTROL_OK.with(|c| c.set(true));
+            acc.controls_ok += 1;
             acc.choice_points += 1;
             let with = |v: Option<String>| {
                 let mut pres = Presentation::of(&case, &token);
